@@ -1,6 +1,7 @@
 import AdaptiveProofs.Lemmas.L1DSorted
 import AdaptiveProofs.Lemmas.L1DInv
 import AdaptiveProofs.Lemmas.L1DScale
+import AdaptiveProofs.Lemmas.L1DValid
 
 /-!
 # C01 — Learner1D: the reported loss is the true worst-interval loss of the current data
@@ -102,5 +103,39 @@ theorem c01_update_proportional {s : State α} (hs : s.xsC.Pairwise (· < ·)) (
     fun a b hab hl hr => updInterp_lossesC_inside lossFn r12 hs xl xr hab hl hr,
     fun k hk => updInterp_lossesC_outside lossFn r12 hs xl xr hk,
     fun a b => getLoss_updInterp lossFn r12 s xl xr a b⟩
+
+/-- C01.h  THE VALUE INVARIANT.  In every state reachable by a valid history (points inside the
+bounds; batched tells only once both end points are known or pending; all values with the same number
+`d` of components) — for every loss function with ANY number `nn` of neighbouring intervals:
+
+* every interval between neighbouring evaluated points holds the loss function's value on the data the
+  learner holds NOW, normalised with an output scale `sy` that lies between the scale of the last full
+  recomputation and the current one (`oldScaleY ≤ sy ≤ scaleY ≤ factor · oldScaleY`, see C01.e);
+* every interval `(a, b)` between neighbouring evaluated-or-pending points that lies inside an evaluated
+  interval `(l, r)` has the expected loss `(b - a) · L(l, r) / (r - l)`, and an interval with no evaluated
+  point on one side has an infinite expected loss. -/
+theorem c01_values {lo hi : α} (hlt : lo < hi) (factor dxEps : α) (nn : Nat) (d : Nat)
+    (ops : List (Op α)) (hd : ∀ op ∈ ops, OpDim d op)
+    (hv : ValidOps lossFn r12 (init lo hi factor dxEps nn) ops) :
+    let s := run lossFn r12 (init lo hi factor dxEps nn) ops
+    (∀ iv ∈ pairs s.xs, ∃ sy, s.oldScaleY ≤ sy ∧ sy ≤ s.scaleY ∧
+        lget iv s.losses = some (getLossAt lossFn s sy iv.1 iv.2)) ∧
+    (∀ a b, (a, b) ∈ pairs s.xsC →
+      (∃ l r L, (l, r) ∈ pairs s.xs ∧ l ≤ a ∧ b ≤ r ∧ lget (l, r) s.losses = some L ∧
+                lget (a, b) s.lossesC = some (Loss.mulDiv (b - a) L (r - l)))
+      ∨ ((∀ x ∈ s.xs, a < x) ∨ (∀ x ∈ s.xs, x < b)) ∧ lget (a, b) s.lossesC = some .inf) :=
+  ⟨realVals_run lossFn r12 lo hi factor dxEps nn d ops hd
+      (runInBox_of_valid_init lossFn r12 hlt factor dxEps nn ops hv),
+   combVals_run lossFn r12 lo hi factor dxEps nn ops⟩
+
+/-- C01.i  With the recomputation factor set to 1 every stored loss is exactly the loss recomputed
+from scratch on the current state. -/
+theorem c01_exact_when_factor_one {lo hi : α} (hlt : lo < hi) (factor dxEps : α) (nn : Nat)
+    (hf : factor = 1) (d : Nat) (ops : List (Op α)) (hd : ∀ op ∈ ops, OpDim d op)
+    (hv : ValidOps lossFn r12 (init lo hi factor dxEps nn) ops) :
+    let s := run lossFn r12 (init lo hi factor dxEps nn) ops
+    ∀ iv ∈ pairs s.xs, lget iv s.losses = some (getLoss lossFn s iv.1 iv.2) :=
+  exact_values_of_factor_one lossFn r12 lo hi factor dxEps nn hf d ops hd
+    (runInBox_of_valid_init lossFn r12 hlt factor dxEps nn ops hv)
 
 end L1D
